@@ -7,7 +7,7 @@ from .absint import AnalysisError, PyRaise
 from . import markexplore as mx
 from .markdomain import MarkerTextError, Undefined, parse_marker_text, tree_mask
 
-ALL_NAMES = ["os_name", "sys_platform", "extra", "python_version", "python_full_version"]
+ALL_NAMES = ["os_name", "sys_platform", "extra", "python_version", "python_full_version", "platform_release"]
 # names that are NOT mentioned by any explored marker but are substrings / superstrings of mentioned ones
 FOREIGN_NAMES = ["extras", "dependency_groups", "python", "name", "os_name_", "platform", "python_version_", "ext"]
 B = mx.STEP_BUDGET
